@@ -1,3 +1,4 @@
+\* thorough tier: one more line per file.
 \* pattern A: every file of up to MaxLines lines / MaxIns instruction lines over a small alphabet, read in
 \* one mode.  c04.py runs this configuration for several modes (AsmMode / FixMode are rewritten there).
 SPECIFICATION Spec
@@ -7,12 +8,12 @@ CONSTANTS
   Base = 40000
   MaxIns = 2
   MaxDirs = 2
-  MaxLines = 4
+  MaxLines = 5
   Kinds = {"bfix"}
   TokKinds = {"one", "ld8", "jp", "call", "ldhl", "lda", "jr", "djnz", "defw", "defb", "defm", "defs"}
   Classes <- McClasses
   FlagSets <- McFlags
-  TargetOffs = {1}
+  TargetOffs = {1, 3}
   RemOffs = {0, 1}
   RemLens = {1, 2}
   LabChoices = {FALSE}
